@@ -84,7 +84,13 @@ def main():
             results = json.load(f)
     for name, path in patches:
         exp = expected_of(path)
-        checks = ALL if allchecks or not exp else exp
+        if not exp and name.startswith("seeded_"):
+            meta = os.path.join(os.path.dirname(path), "meta.json")
+            if os.path.exists(meta):
+                with open(meta) as f:
+                    exp = [json.load(f)["breaks_property"]]
+        related = [c for c in ("C01", "C02") if c not in exp] if name.startswith("seeded_") else []
+        checks = ALL if allchecks or not exp else exp + related
         r = run_mutant(name, path, checks, tier)
         r["expected"] = exp
         r["missed_expected"] = [c for c in exp if c in r["silent"]]
